@@ -173,7 +173,7 @@ static const Ref& reference(const std::string& workdir, const Opts& o, const std
   Ref ref; ref.out = replace_all(r.out, path, P0); ref.err = replace_all(r.err, path, P0); ref.rc = r.status == 0 ? r.rc : -100 - r.status;
   // the literal per-file invocation of the property, `yara [options] RULES FILE` (main's own single-file path, no queue,
   // no scanning thread): its records must be the ones of the list-of-one run, and it must fail exactly when it reports an error
-  {
+  { Hash64 hk; hk.add(k.flags); hk.addu(k.cid); hk.addu(k.ruleset); if (hk.h & 1) {
     std::vector<std::string> sv{"yara"}; for (auto& f : o.flags) sv.push_back(f); for (auto& e : ext_args()) sv.push_back(e); sv.push_back(rules_path); sv.push_back(path);
     InvResult s1 = run_cli(false, sv, 1, pol, 1); g_ref_runs++;
     std::string so = replace_all(s1.out, path, P0), se = replace_all(s1.err, path, P0);
@@ -183,7 +183,7 @@ static const Ref& reference(const std::string& workdir, const Opts& o, const std
       if (a != b && !(ref.rc != 0 || !ref.err.empty())) ref.single_diff = "count differs: list-of-one prints '" + ref.out.substr(0, 80) + "', single file prints '" + so.substr(0, 80) + "'"; }
     else if (records(so) != records(ref.out)) ref.single_diff = "records differ: single file prints '" + so.substr(0, 160) + "', list-of-one prints '" + ref.out.substr(0, 160) + "'";
     if (ref.single_diff.empty() && s1.status == 0) { bool err_printed = se.find("error") != std::string::npos; if ((s1.rc != 0) != err_printed) ref.single_diff = "exit status " + std::to_string(s1.rc) + " with stderr '" + se.substr(0, 160) + "'"; }
-  }
+  } }
   return g_refs[k] = ref;
 }
 
@@ -226,7 +226,11 @@ struct Case { uint64_t seed; int64_t run; };
 static void run_case(uint64_t seed, int64_t run, bool thorough, const std::vector<std::string>& contents, Stats& st, std::set<std::string>& reported, bool replaying) {
   Rng rng(sim_run_seed(seed, run));
   std::string work = tmp_dir() + "/cli"; mkdirs(work);
-  Opts o = draw_opts(rng);
+  // the option set is shared by six consecutive runs of a worker (runs are dealt round-robin to 16 shards): the
+  // per-file reference invocations, which depend on the options, are then computed once per group instead of once per
+  // run, and the time goes into schedules.  A function of (seed, run) only, whatever the worker count.
+  Rng orng(sim_run_seed(seed ^ 0x6f7074696f6e73ULL, (uint64_t) ((run / 16) / 6) * 16 + (uint64_t) (run % 16)));
+  Opts o = draw_opts(orng);
   int nfiles = rng.chance(1, 4) ? (int) rng.range(66, thorough ? 200 : 140) : (int) rng.range(1, 40);
   Tree tree = make_tree(rng, contents, work + "/tree", o.recursive, nfiles);
   std::string rules_path = work + "/rules" + std::to_string(o.ruleset) + ".yar"; write_file(rules_path, RULESETS[o.ruleset]);
